@@ -11,7 +11,7 @@ git -C /repo worktree prune
 git -C /repo worktree add -q --detach $ROOT/repo HEAD || exit 9
 ( cd $ROOT/repo && git apply /verif/seeded/$SEED/patch.diff ) || { echo "seed=$SEED patch does not apply"; git -C /repo worktree remove --force $ROOT/repo; exit 8; }
 cp /repo/Cargo.lock $ROOT/repo/Cargo.lock
-rsync -a --exclude target --exclude Cargo.lock /verif/kani/ $ROOT/kani/
+rsync -a --exclude target --exclude Cargo.lock ${KSRC:-/verif/kani}/ $ROOT/kani/
 sed -i "s#rubato = { path = \"/repo\" }#rubato = { path = \"$ROOT/repo\" }#" $ROOT/kani/Cargo.toml
 cd /verif
 RV_REPO=$ROOT/repo RV_KANI_CRATE=$ROOT/kani RV_SCRATCH=/var/tmp/rvh-seed-$SEED RV_EVID=$ROOT/evidence ./rv check $PROP "$@" > $ROOT/log 2>&1
